@@ -273,8 +273,10 @@ def oracle(case, res):
                     continue
                 if d['after'] == 'absent' and (d['moved_to'] or d['kept_elsewhere']):
                     continue                               # moved; whether the target was free is judged at the target
-                if d['after'] not in ('absent', 'dir') and d['moved_to']:
-                    continue                               # replaced, but the old content went to a name that was free
+                if d['after'] not in ('absent', 'dir') and d['moved_to'] and prog != 'init':
+                    continue                               # `up --migrate` (the explicit request): replaced, the old content went to a free name
+                # `tally init` keeps each existing file IN PLACE: a file of the user's that is replaced - even with its old content set aside
+                # under another name - is not kept (only the legacy CSV may leave its place, as the migration's backup)
                 why = ('lines were appended, which only settings.yaml may gain' if d['appended'] and d['after'] not in ('absent', 'dir')
                        else 'not an append; old content not moved to a free name')
                 fd = d.get('first_diff')
